@@ -371,3 +371,18 @@ Definition C10_mid_set_get_keyword_stmt : Prop :=
     let r := m_set_params m [] (kw_of (map fst (mid_items m)) v) in
     snd r <> None ->
     option_map (map snd) (m_got (fst r)) = Some v /\ option_map (map fst) (m_got (fst r)) = Some (map fst (mid_items m)).
+
+(** Bilateral: keywords that reach no parameter change nothing that can be observed *)
+Definition C10_bi_unknown_names_ignored_stmt : Prop :=
+  forall b a kw, b_names_ok b = true ->
+    (forall k, In k (map fst (b_set_order b)) -> b_lk kw k = None) ->
+    (forall k, In k (map fst (u_dist_items (b_contra b))) -> side_lk "contra" kw k = None) ->
+    let r1 := b_set_params b a kw in let r2 := b_set_params b a [] in
+    snd r1 = snd r2 /\ (snd r1 <> None -> b_got (fst r1) = b_got (fst r2)).
+
+(** Bilateral: set_params( **get_params()) does not raise and leaves get_params unchanged,
+    for a valid object whose two sides carry the same distributions *)
+Definition C10_bi_set_own_params_is_identity_stmt : Prop :=
+  forall b, b_wf b = true -> u_dists (b_contra b) = u_dists (b_ipsi b) -> u_maxt (b_contra b) = u_maxt (b_ipsi b) ->
+    let r := b_set_params b [] (own_kwargs (b_got b)) in
+    snd r = Some [] /\ b_got (fst r) = b_got b.
